@@ -259,6 +259,17 @@ class SyncedList(SyncedCollection, MutableSequence):
         with self._load_and_save, self._suspend_sync:
             self._data.remove(self._from_base(data=value, parent=self))
 
+    def pop(self, index=-1):  # noqa: D102
+        # The MutableSequence mixin reads and deletes in two separately locked
+        # steps, which is not atomic with respect to other threads.
+        with self._load_and_save:
+            return self._data.pop(index)
+
+    def reverse(self):  # noqa: D102
+        # The MutableSequence mixin swaps elements in separately locked steps.
+        with self._load_and_save:
+            self._data.reverse()
+
     def clear(self):  # noqa: D102
         if self._root is not None:
             # A nested collection must be cleared within the backend's
